@@ -103,9 +103,11 @@ class Ctx(object):
             # replay files describe the violations of the latest run only
             d = os.path.join(os.environ.get('VERIF_REPLAY_DIR') or os.path.join(VERIF, 'replay'), pid)
             if os.path.isdir(d):
-                for f in os.listdir(d):
-                    if f.endswith('.json'):
-                        os.unlink(os.path.join(d, f))
+                for sub in (d, os.path.join(d, 'known')):
+                    if os.path.isdir(sub):
+                        for f in os.listdir(sub):
+                            if f.endswith('.json'):
+                                os.unlink(os.path.join(sub, f))
 
     # ---- bookkeeping -------------------------------------------------------------------------
     def count(self, key, n=1):
@@ -193,6 +195,7 @@ class Ctx(object):
         nviol = 0
         out = []
         for sig, (v, n) in sorted(self.known_hits.items()):
+            write_replay(self.pid, v, 'known')      # current witness of a listed finding (for triage; replayable)
             out.append('KNOWN-FINDING: property=%s %s :: %s (x%d)' % (self.pid, sig, v.get('what', ''), n))
         for sig, (v, n) in sorted(self.violations.items()):
             path = write_replay(self.pid, v)
@@ -255,8 +258,10 @@ def _wsize(v):
         return 1 << 30
 
 
-def write_replay(pid, v):
+def write_replay(pid, v, sub=None):
     d = os.path.join(os.environ.get('VERIF_REPLAY_DIR') or os.path.join(VERIF, 'replay'), pid)
+    if sub:
+        d = os.path.join(d, sub)
     os.makedirs(d, exist_ok=True)
     sha = hashlib.sha1(v['signature'].encode()).hexdigest()[:16]
     path = os.path.join(d, sha + '.json')
